@@ -10,6 +10,7 @@ from ..core import Ctx, Outcome, Violation
 
 ID = "C01"
 LEVEL = "proof"
+EXTRA_TARGETS = ["MG.DriverEng"]
 THEOREMS = {
     "MG.Proofs.C01": [
         "MG.C01.collect_consumers_first",
